@@ -169,6 +169,8 @@ EXACT_LISTS = [
     [P.lit('a')], [P.lit('ab')], [P.lit('bab')], [P.lit('ab'), P.lit('a')], [P.lit('a'), P.lit('ab')],
     [P.lit('b'), P.EOFM, P.lit('ab')], [P.TMOM, P.lit('bb'), P.EOFM], [P.lit('ba'), P.lit('ab')],
     [P.EOFM], [P.lit('aa'), P.lit('aa')], [P.TMOM], [P.lit('n'), P.lit('bn')],
+    # the alphabetically greatest string is not the longest one (look-back must be the LONGEST)
+    [P.lit('b'), P.lit('aab')], [P.lit('ba'), P.lit('aaba'), P.lit('b')], [P.lit('n'), P.lit('abab')], [P.lit('bb'), P.lit('abaa')],
 ]
 RE_LISTS = [
     [P.lit('a')], [P.lit('ab'), P.lit('b')], [P.anyn(2)], [P.END], [P.star('a')],
@@ -186,15 +188,37 @@ def streams(alpha, maxlen):
             yield ''.join(t)
 
 
+def random_exact_list(rng, alpha):
+    n = rng.randint(1, 3)
+    pl = [P.lit(''.join(rng.choice(alpha) for _ in range(rng.randint(1, 5)))) for _ in range(n)]
+    if rng.random() < 0.3:
+        pl.insert(rng.randint(0, len(pl)), rng.choice([P.EOFM, P.TMOM]))
+    return pl
+
+
+def random_re_list(rng, alpha):
+    forms = [lambda: P.lit(''.join(rng.choice(alpha) for _ in range(rng.randint(1, 4)))),
+             lambda: P.anyn(rng.randint(1, 4)), lambda: P.END, lambda: P.star(rng.choice(alpha)), lambda: P.plus(rng.choice(alpha)),
+             lambda: P.alt(''.join(rng.choice(alpha) for _ in range(rng.randint(1, 3))), ''.join(rng.choice(alpha) for _ in range(rng.randint(1, 3)))),
+             lambda: P.litend(''.join(rng.choice(alpha) for _ in range(rng.randint(1, 3))))]
+    pl = [rng.choice(forms)() for _ in range(rng.randint(1, 3))]
+    if rng.random() < 0.3:
+        pl.insert(rng.randint(0, len(pl)), rng.choice([P.EOFM, P.TMOM]))
+    return pl
+
+
 def random_call(rng, alpha, allow_setbuf=True):
     r = rng.random()
+    ab = [c for c in alpha if c in 'abn'] or ['a', 'b']
     W = rng.choice([0, 0, 1, 2, 3, 9])
     tmo = rng.choice(['pos', 'pos', 'pos', 'default', 'zero', 'neg', 'none'])
     wvia = rng.choice(['arg', 'attr'])
     if r < 0.30:
-        return dict(fn='expect_exact', pats=rng.choice(EXACT_LISTS), W=W, tmo=tmo, wvia=wvia, single=rng.random() < .5)
+        pl = rng.choice(EXACT_LISTS) if rng.random() < 0.5 else random_exact_list(rng, ab)
+        return dict(fn='expect_exact', pats=pl, W=W, tmo=tmo, wvia=wvia, single=rng.random() < .5)
     if r < 0.62:
-        return dict(fn=rng.choice(['expect', 'expect', 'expect_list', 'expect_loop']), pats=rng.choice(RE_LISTS),
+        pl = rng.choice(RE_LISTS) if rng.random() < 0.5 else random_re_list(rng, ab)
+        return dict(fn=rng.choice(['expect', 'expect', 'expect_list', 'expect_loop']), pats=pl,
                     W=W, tmo=tmo, wvia=wvia, single=rng.random() < .5)
     if r < 0.72:
         return dict(fn='read_n', n=rng.choice([1, 2, 3]), W=W)
